@@ -263,6 +263,82 @@ def reader_stores(prog, cd, rep, kinds, rule="segment-stores"):
                     rep.fail(rule, mod, fq, node, f"store `{name}[{norm(idx)}] = {norm(val)}` does not put a run's data at the run's own frames")
 
 
+_ALLOC = {"np.empty", "np.full", "np.zeros", "np.ones", "numpy.empty", "numpy.full", "numpy.zeros", "numpy.ones", "np.empty_like", "np.full_like", "np.zeros_like"}
+
+
+def _is_nan(v):
+    return norm(v) in ("np.nan", "np.NaN", "np.NAN", "numpy.nan", "math.nan", "float('nan')", "float('NaN')", "nan")
+
+
+def decoded_frames_untouched(prog, cd, rep, kinds, rule="decoded-frames-untouched"):
+    """'every frame inside a run carries its stored value': the buffers a decoder of a gapped record allocates receive (a) the
+    whole-buffer NaN pre-fill, before any data, and (b) rows read from the stream - nothing else.  A later store of a constant, of
+    NaN under a mask, or of values computed from other decoded fields replaces stored samples (or turns present frames into gaps)
+    although the bytes say otherwise.  Decided over the decoder's statements in the normal form (views `B['field']` count as B)."""
+    n = 0
+    for u, presence in kinds:
+        f = u.reader
+        mod, fq = f.module.path.name, f.qualname
+        bufs = set()
+        for st in ast.walk(f.node):
+            if isinstance(st, ast.Assign) and len(st.targets) == 1 and isinstance(st.targets[0], ast.Name) and isinstance(st.value, ast.Call) and norm(st.value.func) in _ALLOC:
+                bufs.add(st.targets[0].id)
+        # views of a buffer bound to a local
+        changed = True
+        while changed:
+            changed = False
+            for st in ast.walk(f.node):
+                if isinstance(st, ast.Assign) and len(st.targets) == 1 and isinstance(st.targets[0], ast.Name) and st.targets[0].id not in bufs:
+                    v = st.value
+                    while isinstance(v, (ast.Subscript, ast.Attribute)):
+                        v = v.value
+                    if isinstance(v, ast.Name) and v.id in bufs and isinstance(st.value, (ast.Subscript, ast.Attribute)):
+                        bufs.add(st.targets[0].id)
+                        changed = True
+
+        def base(t):
+            while isinstance(t, (ast.Subscript, ast.Attribute)):
+                t = t.value
+            return t.id if isinstance(t, ast.Name) else None
+
+        def from_stream(v):
+            return any(isinstance(x, ast.Call) and isinstance(x.func, ast.Attribute) and x.func.attr in ("bread", "read", "_build") for x in ast.walk(v)) \
+                or any(isinstance(x, ast.Call) and norm(x.func) in ("np.frombuffer", "np.fromfile", "numpy.frombuffer") for x in ast.walk(v))
+
+        stream_names = set()
+        for st in ast.walk(f.node):
+            if isinstance(st, ast.Assign) and from_stream(st.value):
+                stream_names |= {x.id for t in st.targets for x in ast.walk(t) if isinstance(x, ast.Name)}
+            if isinstance(st, ast.For) and (from_stream(st.iter) or any(isinstance(x, ast.Name) and x.id in stream_names for x in ast.walk(st.iter))):
+                stream_names |= {x.id for x in ast.walk(st.target) if isinstance(x, ast.Name)}
+        stores = []
+        for st in ast.walk(f.node):
+            if isinstance(st, (ast.Assign, ast.AugAssign)):
+                for t in (st.targets if isinstance(st, ast.Assign) else [st.target]):
+                    if isinstance(t, ast.Subscript) and base(t) in bufs:
+                        stores.append((st, t))
+            elif isinstance(st, ast.Expr) and isinstance(st.value, ast.Call) and isinstance(st.value.func, ast.Attribute) and st.value.func.attr in ("fill", "put", "itemset") \
+                    and base(st.value.func.value) in bufs:
+                stores.append((st, None))
+            elif isinstance(st, ast.Expr) and isinstance(st.value, ast.Call) and norm(st.value.func) in ("np.put", "np.place", "np.putmask", "np.copyto") and st.value.args and base(st.value.args[0]) in bufs:
+                stores.append((st, None))
+        first_data = min([st.lineno for st, t in stores if t is not None and (from_stream(st.value) or any(isinstance(x, ast.Name) and x.id in stream_names for x in ast.walk(st.value)))] or [10 ** 9])
+        for st, t in sorted(stores, key=lambda p: p[0].lineno):
+            n += 1
+            val = st.value if not isinstance(st, ast.Expr) else (st.value.args[-1] if st.value.args else None)
+            data = val is not None and isinstance(st, ast.Assign) and (from_stream(val) or any(isinstance(x, ast.Name) and x.id in stream_names for x in ast.walk(val)))
+            whole = t is None and isinstance(st, ast.Expr) and st.value.func.attr == "fill" if t is None and isinstance(st.value, ast.Call) and isinstance(st.value.func, ast.Attribute) else \
+                (t is not None and isinstance(t.value, ast.Name) and ((isinstance(t.slice, ast.Slice) and t.slice.lower is None and t.slice.upper is None and t.slice.step is None) or isinstance(t.slice, ast.Constant) and t.slice.value is Ellipsis))
+            if data:
+                rep.ok(rule, f"{fq}: `{norm(head(st))[:70]}` stores rows read from the stream")
+            elif val is not None and _is_nan(val) and whole and st.lineno <= first_data:
+                rep.ok(rule, f"{fq}: `{norm(head(st))[:50]}` is the whole-buffer NaN pre-fill, before any data")
+            else:
+                rep.fail(rule, mod, fq, st, f"`{norm(head(st))[:80]}` changes the decoder's buffer with something that is not the whole-buffer NaN pre-fill and not rows read from the stream: "
+                         "frames the bytes store come back altered (or as gaps) although the bytes are a correct encoding", construct=f"{fq} alters decoded frames: {norm(head(st))[:60]}")
+    rep.floor(rule, n, 4)
+
+
 def gap_reader_accepts(prog, cd, rep, gap_units, rule="gap-reader-accepts"):
     """'For every pattern of missing frames' the decoder takes what the writer emits: the decoder of a gapped record has no
     refusal of its own (a `raise` under a condition over the run table it has just read rejects some patterns - runs one frame
@@ -300,6 +376,7 @@ def run(prog, rep):
     rep.attempt(nan_prefill, prog, cd, rep)
     rep.attempt(buffer_origin, prog, cd, rep, kinds)
     rep.attempt(reader_stores, prog, cd, rep, kinds)
+    rep.attempt(decoded_frames_untouched, prog, cd, rep, kinds)
     # stored in a FILE, the runs of a gapped track survive only if the track declares the bytes it writes: the container places the
     # next block at offset + nBytes, so a track that under-declares its run table has its last frames overwritten (C02's identity,
     # here for the gap-capable records only)
